@@ -126,6 +126,12 @@ def _cases_core(rng, tier):
             # compressed flag byte wrong
             w = list(b58check_enc((b"\xef" if t else b"\x80") + k.to_bytes(32, "big") + bytes([rng.choice([0, 2, 255])])))
         yield "from_wif " + sx("".join(w)), "from-wif-mutated"
+    # a valid WIF with one line terminator / blank / control / invisible character in front of it or behind it
+    for k in [1, N - 1] + [rng.randrange(1, N) for _ in range(1 if tier == "quick" else 20)]:
+        for pre, suf in ((b"\x80", b"\x01"), (b"\xef", b""), (b"\x80", b""), (b"\xef", b"\x01")):
+            good = b58check_enc(pre + k.to_bytes(32, "big") + suf)
+            for bad in common.edge_variants(good):
+                yield "from_wif " + sx(bad), "from-wif-edge-character"
 
 
 def nontrivial(line, out):
